@@ -4,6 +4,16 @@ import json, os
 VERIF = os.path.dirname(os.path.dirname(os.path.abspath(__file__)))
 
 CLAIMS = {
+ "C01": dict(
+  technique="Coq proof (invariants + induction over the line state machine model: append-only history, per-hunk once-in-order, end-to-end placement) + black-box correspondence of rendered rows + token oracle",
+  text="Machine-checked proofs over the line state machine model (Delta.v): from any state a hunk's header and body lines extend the rendered history by exactly one item each, in input order, with only the marker column removed and tabs expanded (C01_hunk_once_in_order); the history is append-only along every execution of the unified view under one decidable side condition that every generated git diff satisfies (C01_history_append_only), hence each hunk appears once, contiguously, in the final output (C01_hunk_in_final_output). The hand-written model is tied to the code by running generated git diffs of every section kind x options through the real binary and comparing visible rows with the rendering of the extracted model's items; a model-free token oracle (each body line exactly once, in order, inside its file's section, text intact) is evaluated on the binary's output.",
+  note="Trusted: Coq kernel; correspondence harness, item renderer (tools/gdiff.py) and terminal decoder; model scope = git two-way diffs with non-raw header styles (combined diffs / conflict regions / plain diff -u: black-box oracle only, see DESIGN). No axioms.",
+  design="§6 C01"),
+ "C11": dict(
+  technique="Coq proof (monotone written output for all inputs and prefixes; lag invariant of the hunk handler from any state) + held-open-stdin correspondence after every input line + lag oracle on the binary's bytes",
+  text="Machine-checked proofs: what has been written after any prefix is a prefix of the output for that prefix alone and for the whole input (C11_written_is_prefix, all inputs); after any hunk body line, from any state, the output buffer is empty and each line buffer holds at most line-buffer-size+1 lines (C11_lag_bound). Tie: the real binary is fed line by line with stdin held open; after each line (quiescence = main thread blocked in read(0) with the pipe drained) the visible rows written so far are compared with the extracted model's written items, and the lag/prefix oracle is evaluated on the bytes, in unified and side-by-side mode.",
+  note="Trusted: Coq kernel; /proc-based quiescence detection; harness. Merge-conflict regions are held until their end by design: known finding F12 (reported as KNOWN-FINDING). No axioms.",
+  design="§6 C11"),
  "C17": dict(
   technique="Coq proof (invariant relating the colour memo to the rendered rows, induction over the key sequence) + black-box correspondence of decoded background colours + extracted boolean specification as oracle",
   text="Machine-checked proof that the blame colour assignment (get_color/get_next_color) satisfies the three colour clauses for every key sequence and every palette of >= 2 distinct colours, and is total for every mixture of git-coloured and plain lines; the hand-written model is tied to the code by running generated blame streams (exhaustive small scope + random + git-coloured mixtures) through the real binary and comparing decoded background colours row by row; the extracted specb (proved equivalent to the specification) and a row-content oracle (code, line number, metadata blanking) are evaluated on the implementation's output.",
